@@ -45,6 +45,7 @@ pub struct RunReport {
     pub evaluations: u64,
     pub trace: Vec<u32>,
     pub trace_sites: Vec<&'static str>,
+    pub spans: Vec<(usize, usize, usize)>,
     pub log_hash: u64,
     pub sample: String,
     pub events: Vec<(&'static str, u64, u64)>,
@@ -60,6 +61,7 @@ impl RunReport {
         }
         self.trace = s.ch.values();
         self.trace_sites = s.ch.trace.iter().map(|t| t.0).collect();
+        self.spans = s.ch.spans.clone();
         self.log_hash = s.log_hash;
         self.events = s.events.clone();
         self
